@@ -346,7 +346,11 @@ func (p *Program) addRecursion() {
 		shape = append(shape, td.Name)
 	}
 	var keyed *ConstVal // for a map with a named key type: a literal `{key: []}` that is a valid default
-	switch ch("rec.wrap", 5) {
+	wrap := ch("rec.wrap", 5)
+	if p.recDefaults && wrap != 3 && simrt.Flip("rec.prefer-second-struct", 0.3) {
+		wrap = 3
+	}
+	switch wrap {
 	case 1:
 		target = &TypeRef{Base: "list", Elem: target}
 	case 2:
@@ -385,7 +389,7 @@ func (p *Program) addRecursion() {
 			c.Value = p.genValue(f, c.Type, Options{}, 1)
 			back.Default = &ConstVal{Kind: CRef, Ref: &Ref{c.File, c.Name}}
 			p.RecShape = shape
-		} else if p.recDefaults && p.constructible(s, 0) && simrt.Flip("rec.inline-default", 0.3) {
+		} else if p.recDefaults && p.constructible(s, 0) && simrt.Flip("rec.inline-default", 0.5) {
 			// ... or to a struct literal written in place, which leaves out a field of the
 			// first struct whose own default still has to be resolved (a constant)
 			c := p.add(f, &Def{Kind: KConst, Name: p.name("Cw"), Type: &TypeRef{Base: "i32"}, Value: &ConstVal{Kind: CInt, Int: int64(3 + ch("rec.weight", 90))}})
